@@ -536,6 +536,9 @@ func (x *Exec) evalField(env *SpecEnv, e EField) Val {
 		}
 		panic(specErr("no interface specification for %s (ghost field %s)", name, e.Name))
 	}
+	if base.Addr == nil && base.T.Sort == "Slice" && e.Name == "$off" {
+		return Val{T: Term{app("s_off", base.T), x.S.Idx()}, Typ: types.Typ[types.Int]}
+	}
 	if base.Addr == nil && base.T.Sort == "Slice" && e.Name == "$ref" {
 		return Val{T: Term{app("s_ref", base.T), "Int"}, Typ: types.Typ[types.Int]}
 	}
